@@ -1449,7 +1449,9 @@ def parse_bankacctinfos(acctinfos: Sequence[models.BANKACCTINFO]) -> ParsedAccti
             bankids.append(inf.bankid)
             args_[inf.accttype.lower()].append(inf.acctid)
 
-    args_["bankid"] = utils.collapseToSingle(bankids, "BANKIDs")
+    # No active accounts means nothing to request (and no BANKID to configure)
+    if bankids:
+        args_["bankid"] = utils.collapseToSingle(bankids, "BANKIDs")
     return dict(args_)
 
 
@@ -1462,7 +1464,9 @@ def parse_invacctinfos(acctinfos: Sequence[models.INVACCTINFO]) -> ParsedAcctinf
             brokerids.append(acctfrom.brokerid)
             args_["investment"].append(acctfrom.acctid)
 
-    args_["brokerid"] = utils.collapseToSingle(brokerids, "BROKERIDs")
+    # No active accounts means nothing to request (and no BROKERID to configure)
+    if brokerids:
+        args_["brokerid"] = utils.collapseToSingle(brokerids, "BROKERIDs")
     return dict(args_)
 
 
